@@ -212,6 +212,30 @@ def shard_exotic(args):
     return acc.export()
 
 
+C1_TEXTS = ("\x9d0;title\x07rest", "a\x9d;b\x9cc", "\x9d\x07", "p\x9d12;q\x1f\x9c!", "\x90x\x9c", "\x9e\x9f\x98y\x9c", "\x07\x08\x0c", "\x9d2;x\x9d;y\x07z", "k\x85\x8e\x8f\x9a",
+            "]0;t\x07", "P1$r\x9c", "^msg\x9c")
+
+
+def shard_c1_texts(args):
+    """Run texts made of C1 controls that START string-type control sequences in 8-bit terminals (OSC U+009D, DCS U+0090, SOS/PM/APC) with
+    their terminators (BEL, ST U+009C) - but neither ESC nor the 8-bit CSI: ordinary characters of a FmtStr, every attribute set, alone
+    and between other runs."""
+    tier, seed, idx = args
+    acc = Acc(seed=seed)
+    for pi, kw in enumerate(c01.PAL24):
+        if pi % 8 != idx:
+            continue
+        for t in C1_TEXTS:
+            for around in (False, True):
+                runs = [(t, kw)]
+                if around:
+                    runs = [("<", {"fg": "cyan"})] + runs + [(">\x07", {})]
+                case = {"kind": "roundtrip", "runs": [[tt, kk] for tt, kk in runs]}
+                acc.case(True, key=("c1", pi, t, around), sample=case)
+                roundtrip(acc, runs, case)
+    return acc.export()
+
+
 def shard_long_text(args):
     """One combined SGR sequence of 36 / 61 characters starting at EVERY offset of a long text (0 .. limit): whatever a parser does
     every so-many characters (chunking, windows, look-back limits), some offset puts the sequence across it."""
@@ -251,6 +275,8 @@ def run(ctx):
     acc = Acc(seed=ctx.seed)
     twins(acc)
     rep.merge(acc, "bool_int_twin_values_in_fresh_processes")
+    for d in ctx.pmap(shard_c1_texts, [(ctx.tier, ctx.seed, i) for i in range(8)]):
+        rep.merge(d, "string_control_introducers_as_ordinary_characters")
     for d in ctx.pmap(shard_long_text, [(ctx.tier, ctx.seed, i, 32) for i in range(32)]):
         rep.merge(d, "long_text_every_offset")
     for d in ctx.pmap(shard_exotic, [(ctx.tier, ctx.seed, i) for i in range(32)]):
